@@ -8,5 +8,8 @@ def main : IO UInt32 :=
     | "c09" => C09.checkTracer params lines
     | "c09g" => C09.checkGrammar params lines
     | "c09c" => C09.checkGrammar params lines
+    -- the event-based-gateway histories (withdrawn tokens: a flow that ends without reaching an end event)
+    | "c06" => C09.checkGrammar params lines
+    | "c06loop" => C09.checkGrammar params lines
     | "c09x" => C09.checkShutdown params lines
     | _ => { bad := [s!"unknown family {family}"] })
